@@ -189,4 +189,5 @@ verus_unit("fftcore", "fftcore", ["C09"], [
     "fft::serial::evaluate_poly (network followed by the bit-reversal permutation: position t == sum_i p[i] * w^(i*t), the polynomial evaluated at w^t in natural order, for every power-of-two size)",
     "fft::get_twiddles (table == w^bitrev(k) for w = get_root_of_unity(log2 n), w^(n/2) == -1; the two runtime assertions never fire under the documented pre-condition)",
     "fft::get_inv_twiddles (the same for w^(n-1))",
-    "fft::serial::interpolate_poly (position t == (1/n) * sum_i v[i] * w^(i*t) for the inverse table: the inverse-transform formula)"])
+    "fft::serial::interpolate_poly (position t == (1/n) * sum_i v[i] * w^(i*t) for the inverse table: the inverse-transform formula)",
+    "fft::serial::interpolate_poly_with_offset (coefficient t == (sum_i v[i] * w^(i*t)) * ((1/n) * (1/offset)^t): the inverse transform followed by the un-shifting of the coset, every power-of-two size and every offset; shift_by_series is an assumed contract, executed by the stand-in fft_native)"])
